@@ -233,6 +233,7 @@ def main(argv):
     # ---- merge ------------------------------------------------------------------------------
     counters, digests, samples, violations, errors = {}, set(), [], [], []
     sets = {}
+    gen_errors = []
     shard_info = []
     evaluations = 0
     violations_total = 0
@@ -276,6 +277,7 @@ def main(argv):
                 samples.append(s)
         violations.extend(res["violations"])
         errors.extend(res["errors"])
+        gen_errors.extend(res.get("gen_errors", []))
 
     # ---- crashes: a child that died while a case was in flight --------------------------------
     broken = []
@@ -294,6 +296,9 @@ def main(argv):
             broken.append(f"shard {c['shard']} failed ({c['status']}): {(c['stderr'] or c['fault'])[-1200:]}")
     if errors:
         broken.append(f"{len(errors)} harness error(s); first: {errors[0][-1500:]}")
+    nb_gen = counters.get("generator_errors", 0)
+    if nb_gen > max(5, evaluations // 5000):
+        broken.append(f"{nb_gen} workload generator errors; first: {gen_errors[0][-1200:] if gen_errors else ''}")
 
     # ---- classify violations against the known findings ---------------------------------------
     known = [k for k in load_known() if k.get("property") == prop]
@@ -390,6 +395,9 @@ def main(argv):
     # ---- report -------------------------------------------------------------------------------
     for ln in lines:
         print(ln)
+    if nb_gen:
+        print(f"NOTE property={prop} {nb_gen} case(s) lost to a workload generator error "
+              f"({(gen_errors[0].strip().splitlines() or ['?'])[-1][:160] if gen_errors else '?'})")
     for msg in broken:
         print(f"BROKEN-CHECK: property={prop} {msg}")
     for msg in inconclusive:
